@@ -20,7 +20,8 @@ errmodes    a real input processed in capture, non-strict, strict mode and throu
             (reply spec.expected): clause every_problem_reported.  Any non-pybtex exception is a failing input;
 errcli      the three real command lines (pybtex, pybtex-convert, pybtex-format) run in-process with an argv
             (--strict in every position, other / rejected / plug-in options, wrong argument counts, same input and
-            output, several runs in one interpreter); the model is `cliMain` = set_strict_mode(False); options; run;
+            output, several runs in one interpreter); the model is `cliMain` = save strict; error_code = 0; set_strict_mode(False);
+            options; run; finally restore strict;
 fmtchars    the letters of a `format.name$` name part (BibTeXNameFormatError unreachable).
 """
 import contextlib
@@ -48,7 +49,7 @@ THEOREMS = {
     'C16_class_list_exact': 'the class list the harness compares with the PybtexError subclasses enumerated from the source is exactly the set of classes the model has values (a rendering) for: nothing listed without rendering, nothing rendered that is not listed',
     'C16_mode_independent': 'for a computation reporting e1..en: capture collects exactly [e1..en] and restores the state; non-strict prints the same n warnings in order, error_code = 2 iff n > 0; strict raises e1 first, changes nothing, and its problems are a prefix of the others',
     'C16_warning_text': 'the warning printed in non-strict mode is the rendering with the WARNING prefix, defined for every error',
-    'C16_exit_status': 'command line: status 0 iff nothing reported, 2 iff only warnings, 1 iff a pybtex error escaped; stderr = the warnings in order then the fatal error',
+    'C16_exit_status': "command line (main resets error_code first, so from ANY module state outside a capture): status 0 iff nothing reported, 2 iff only warnings, 1 iff a pybtex error escaped; stderr = the warnings in order then the fatal error; the caller's strict is put back, error_code is left as this run's 0 / 2",
     'C16_capture_restores': '[contexts left innermost first = with blocks] after ANY balanced pattern of nested / aborted capture contexts, from ANY configuration: enclosing frames untouched, captured_errors back to what it was (+ the reports made directly at that level), strict = last set_strict_mode, error_code unchanged unless a warning was printed',
     'C16_capture_restores_outside': 'outside any context captured_errors is None again after the contexts have unwound',
     'C16_capture_nested': 'nested contexts compose: the enclosing context has collected exactly its direct reports, nothing was printed or raised meanwhile, and it goes on collecting',
@@ -67,9 +68,9 @@ THEOREMS = {
     'C16_bib_reader_mode_independent': 'mode independence of the .bib reader NOT by construction: what the reader model raises in its own strict mode is what the abstract computation built from its continue-mode run says strict mode raises (head of the collected list, else the same final error), for every text',
     'C16_bst_parser_exits_listed': 'every exit of the .bst parser model (C15), through parse_string / parse_stream / parse_file: the program, or a PrematureEOF / TokenRequired / PybtexSyntaxError of an over-long integer (never a model-only outcome); nothing is reported, so the run is the same computation in every mode',
     'C16_aux_reader_exits_listed': 'every exit of the .aux reader model (C20) over any file system with acyclic inclusion: reports are AuxDataErrors that render exactly as the reader model says (str, context, file name; well-formed for render_total), the fatal error is an AuxDataError or the PybtexError of a file that cannot be opened',
-    'C16_main_strict_option': 'the real main() with --strict anywhere among accepted options, from ANY module state: the first problem is the only thing on stderr (ERROR prefix), status 1, error_code untouched; without problems the status is what error_code was',
-    'C16_main_exit_status': 'main() without --strict is the non-strict run whatever strict was before and from any error_code: warnings in order then the fatal error; status 1 / 2 / previous error_code; problems ALWAYS make the status non-zero; a command line that is not accepted (wrong argument count, rejected option, unknown plug-in) never ends with status 0',
-    'C16_exit_status_sticky_neg': 'error_code is never cleared: a second main() in the same interpreter after a run with warnings ends with status 2 on a clean input ("0 iff nothing reported" needs a fresh process); strict does not leak, every main() resets it',
+    'C16_main_strict_option': 'the real main() with --strict anywhere among accepted options, from ANY module state: the first problem is the only thing on stderr (ERROR prefix), status 1; without problems status 0; afterwards strict is what the caller had and error_code is 0',
+    'C16_main_exit_status': 'main() without --strict is the non-strict run whatever strict and error_code were before: warnings in order then the fatal error; status 1 / 2 / 0 = the reference status of the input; a command line that is not accepted (wrong argument count, rejected option, unknown plug-in) never ends with status 0',
+    'C16_main_history_independent': "main() neither depends on nor disturbs the caller's reporting state (repair 8c0015f): from ANY state outside a capture its stderr and exit status are those of the same command line in a fresh interpreter; afterwards strict is the caller's on every way out (options accepted or rejected, --help, unknown plug-in, wrong argument count, fatal error, --strict raise), no capture is open, error_code is 0 or 2; in a sequence of runs in one interpreter every run has the status of its own input",
     'C16_bst_run_end_partial': 'a BibTeX-engine run (C03 interpreter model on the lazily parsed program) is classified as a non-pybtex exception ONLY where that model says Python raises one (IErr.internal), as unknown ONLY on fuel exhaustion; a .bst syntax error is the error of the C15 parser model (PrematureEOF / TokenRequired); a finished run has a program that parses completely',
     'C16_bst_run_foreign_neg': 'the recorded finding C16-bst-illformed-program: "a" #1 +, EXECUTE {cite$}, ITERATE {undefined} have no pybtex outcome (TypeError / AttributeError / KeyError in the Python code)',
 }
@@ -98,7 +99,7 @@ ASSUMPTIONS = ['TokenRequired instances come from parser states in which get_err
                '(CtxInfo.WF: Scanner 1 <= lineno <= number of lines; LowLevelParser command_start < pos, inside the text)',
                'capture contexts are left in LIFO order (with-statement discipline) -- outside it restoration FAILS (C16_capture_nonLIFO_neg); '
                'the free-order machine is still tied to the code (errfree)',
-               'exit status "0 iff nothing reported" is about a fresh interpreter (error_code is sticky: C16_exit_status_sticky_neg)',
+               'error_code set by report_error OUTSIDE main() stays set until something resets it (C16_error_code_monotone); main() itself resets it (8c0015f)',
                '.bst programs are well-formed in the sense of the C03 model (no IErr.internal): otherwise recorded finding C16-bst-illformed-program',
                'entry types do not coincide with the name of a format_* helper of the Python style (@title, @url ...: legacy fall-back, see proposed_fixes/C16-3.md)',
                'the tree carries proposed_fixes C16-1, C16-2, C20-1, C20-2 and C16-3 ... C16-7 (the model follows the fixed behaviour)']
@@ -2212,7 +2213,7 @@ def _cli_cases(tier, rng):
                     [['info', '--version']], [['info', '--help']], [S, ['info', '--help'], i, o], [['rejected', '--bogus'], ['info', '--version']],
                     [i, i], [S, i, i], [i, A('out.zzz')], [A('gone.bib'), o], [S, A('gone.bib'), o]):
             cli('pybtex-convert', [run])
-    # several runs in one interpreter: error_code is never cleared, strict is reset by every main()
+    # several runs in one interpreter: every main() resets error_code and puts the caller's strict back
     b, g, o = A('bad.bib'), A('good.bib'), A('out.yaml')
     for runs in ([[b, o], [g, o]], [[S, b, o], [b, o]], [[b, o], [S, b, o]], [[S, g, o], [b, o], [g, o]], [[g, o], [g, o]], [[b], [g, o]],
                  [[['rejected', '--bogus']], [b, o]], [[S, b, o], [g, o]]):
